@@ -31,7 +31,7 @@
    model to the code on them. *)
 From FA.Base Require Import PyAst Value Eval Traverse Names.
 From FA.Model Require Import Simplify.
-From FA.Proofs Require Import Refine EvalAgree SimplifyFacts SimplifySem RenameSem SimplifyTotal SimplifyInv SimplifySound.
+From FA.Proofs Require Import Refine EvalAgree SimplifyFacts SimplifySem RenameSem SimplifyTotal SimplifyInv SimplifyRules SimplifySound SimplifySession.
 
 Section C02.
   Variable B : backend.
@@ -141,6 +141,34 @@ Theorem simplifier_preserves_query_results : forall B ops fuel c e e' c',
   wfq e' = true /\ below c' e' /\ bok B e' /\ mentions "First" e' = false /\ c <= c'.
 Proof. exact simp_preserves. Qed.
 
+(* histories: a backend session that simplifies, puts further operators on the RESULT and simplifies again with a new simplifier
+   object - any number of times, each run starting from the fresh-name counter the previous run left behind - ends with a query
+   that refines the chain written in one piece ([extended]).  [session], [extended], [ext_ok]: Proofs/SimplifySession.v. *)
+Theorem resimplified_sessions_preserve_query_results : forall B ops, backend_ok B ->
+  forall exts fuel c q r c',
+    wfq q = true -> below c q -> bok B q -> mentions "First" q = false ->
+    Forall (ext_ok B c) exts ->
+    session fuel c q exts = Ok (r, c') ->
+    (forall E, refines (eval B ops E (extended q exts)) (eval B ops E r)) /\ wfq r = true /\ below c' r /\ c <= c'.
+Proof. exact session_preserves. Qed.
+
+(* non-vacuity, and the discipline is necessary: the same two-run session with the counter set back to 0 before the second run
+   (a simplifier object that resets the global counter) returns a query with another value - a fresh name drawn by the second
+   run is one the first result already binds *)
+Example session_example :
+  (wfq SessionExample.q1 = true /\ below 0 SessionExample.q1 /\ bok SessionExample.B0 SessionExample.q1 /\
+   mentions "First" SessionExample.q1 = false /\ Forall (ext_ok SessionExample.B0 0) SessionExample.x1) /\
+  (exists r c, session 200 0 SessionExample.q1 SessionExample.x1 = Ok (r, c) /\
+     eval SessionExample.B0 [] SessionExample.E1 (extended SessionExample.q1 SessionExample.x1) = Some SessionExample.v1 /\
+     eval SessionExample.B0 [] SessionExample.E1 r = Some SessionExample.v1).
+Proof. split; [exact SessionExample.hyps_hold | exact SessionExample.session_runs]. Qed.
+
+Theorem counter_set_back_between_runs_refuted : exists r c,
+  SessionExample.session0 200 SessionExample.q1 SessionExample.x1 = Ok (r, c) /\
+  eval SessionExample.B0 [] SessionExample.E1 (extended SessionExample.q1 SessionExample.x1) = Some SessionExample.v1 /\
+  eval SessionExample.B0 [] SessionExample.E1 r <> Some SessionExample.v1.
+Proof. exact SessionExample.counter_reset_refuted. Qed.
+
 (* the invariant it is proved through, for every stack the traversal can be in *)
 Theorem simplifier_step_invariant : forall B ops,
   (forall n, nofun B (arg_name n)) ->
@@ -217,3 +245,5 @@ Example simp_respects_shadowing :
 Proof. eexists; eexists; split; [vm_compute; reflexivity | split; vm_compute; reflexivity]. Qed.
 Print Assumptions simplifier_preserves_query_results.
 Print Assumptions simplifier_step_invariant.
+Print Assumptions resimplified_sessions_preserve_query_results.
+Print Assumptions counter_set_back_between_runs_refuted.
